@@ -355,6 +355,41 @@ def rollingG2 (π μm : List Rat → Rat) (dec : Rat → List (List Rat) → Boo
     (x : List (List Rat)) : List (List Rat) :=
   cellsG2 π (fun xi w => if dec xi w then μm (maskCentre2 (b0 / 2) (b1 / 2) w) else xi) b0 b1 x
 
+/-- `np.round` (half to even): what `np.pad` applies to a pad statistic of an integer image before
+it casts the value to the image's dtype -/
+def rint (q : Rat) : Rat :=
+  let f := q.floor
+  let r := q - (f : Rat)
+  if r < 1 / 2 then (f : Rat)
+  else if 1 / 2 < r then ((f + 1 : Int) : Rat)
+  else if f % 2 = 0 then (f : Rat) else ((f + 1 : Int) : Rat)
+
+/-- the mean-filter cells with pad statistic `π` (`meanCells*` are the instances `π = mean`; an
+integer image is padded with `π = rint ∘ mean`) -/
+def meanCellsP1 (π : List Rat → Rat) (b : Nat) (x : List Rat) : List Cell :=
+  cellsG1 π (fun xi w => meanCell xi w (w.eraseIdx (b / 2))) b x
+
+def meanCellsP2 (π : List Rat → Rat) (b0 b1 : Nat) (x : List (List Rat)) : List (List Cell) :=
+  cellsG2 π (fun xi w => meanCell xi w.flatten (maskCentre2 (b0 / 2) (b1 / 2) w)) b0 b1 x
+
+/-- the median-filter cells with pad statistic `π1` for the image and `π2` for the deviations
+(`medianCells*` are the instances `π1 = π2 = median`; an integer image is padded with
+`π1 = rint ∘ median`, its float deviations with `π2 = median`) -/
+def medianCellsP1 (π1 π2 : List Rat → Rat) (b : Nat) (x : List Rat) : List Cell :=
+  let med := (windows1 b (pad1 π1 (b / 2) x)).map median
+  let diff := List.zipWith (fun xi m => absR (xi - m)) x med
+  let mad := (windows1 b (pad1 π2 (b / 2) diff)).map (fun w => median w * madK)
+  zip3With (fun xi m s => { x := xi, d := absR (xi - m), s := s, repl := m }) x med mad
+
+def medianCellsP2 (π1 π2 : List Rat → Rat) (b0 b1 : Nat) (x : List (List Rat)) : List (List Cell) :=
+  let med := (windows2 b0 b1 (pad2 π1 (b0 / 2) (b1 / 2) x)).map (fun r => r.map (fun w => median w.flatten))
+  let diff := List.zipWith (fun row mrow => List.zipWith (fun xi m => absR (xi - m)) row mrow) x med
+  let mad := (windows2 b0 b1 (pad2 π2 (b0 / 2) (b1 / 2) diff)).map
+    (fun r => r.map (fun w => median w.flatten * madK))
+  zip3With (fun row mrow srow =>
+      zip3With (fun xi m s => ({ x := xi, d := absR (xi - m), s := s, repl := m } : Cell)) row mrow srow)
+    x med mad
+
 /-- a mean in rounded arithmetic: the values added left to right, every addition and the division
 by the count rounded by `fl` -/
 def flMean (fl : Rat → Rat) : List Rat → Rat
